@@ -41,6 +41,7 @@ def run(ctx, chk):
                        "KmerStorage::{complement, rev_blocks_2} on u64/u128: unreachable from any public impl today (dormant; the u64/u128 rev_blocks_2 do not write back)"]
     chk.assumptions = ["bitvec model rows rotate_left/rotate_right/store/reverse", "std swap_bytes/to_le_bytes/from_le_bytes"]
     nrows = 0
+    ncons = 0
     for cfg in ctx.configs():
         chk.cfg = cfg.name
         chk.configs.append(cfg.name)
@@ -102,7 +103,8 @@ def run(ctx, chk):
                    "must be %s(1), then store to_bits(base) into bits [%s, %s) and re-pack; got %s" % (rotfn, show(canon(lo)), show(canon(hi)), got), b["span"], sample=got)
             nrows += 1
         # ---- I-canon over constructions ----
-        nrows += canon_constructions(chk, cfg)
+        ncon = canon_constructions(chk, cfg)
+        ncons += min(ncon, 1)           # non-vacuity only: a shared `from_storage` helper legitimately lowers the number of literals
         # ---- complement: R24, G22 ----
         b = an.one(chk, "R24", bio, "ComplementMut for Kmer<Dna>", name="comp", trait="ComplementMut", self_re=r"^kmer::Kmer<codec::dna::Dna, K>$")
         if b:
@@ -159,7 +161,8 @@ def run(ctx, chk):
                 r1 = comp.get(s)
                 chk.ob("T-xor", "dna::Dna::" + s, r1[0] == "sym" and tb[r1[1]][1] == tb[s][1] ^ 3, "comp(%s) = %s, not code ^ 0b11" % (s, r1), dn.where)
         # ---- I-width2 ----
-        nrows += width2(chk, cfg)
+        nw2 = width2(chk, cfg)
+        ncons += min(nw2, 1)
         C07.default_then(chk, cfg, "Reverse", "to_rev", ("ReverseMut", "rev"), "S-to")
         C07.default_then(chk, cfg, "Complement", "to_comp", ("ComplementMut", "comp"), "S-to")
         C07.default_then(chk, cfg, "ReverseComplement", "to_revcomp", ("ReverseComplementMut", "revcomp"), "S-to")
@@ -168,7 +171,10 @@ def run(ctx, chk):
         chk.cfg = cfg.name
         # "agree with the same operation on the equivalent sequence": the sequence side is C07's loops and defaults
         core.import_rows(chk, cfg, "C07", "props.C07", ("S-rev", "S-comp", "S-to", "T-involution"))
-    chk.floor("k-mer operation rows", nrows, 9 * len(chk.configs))
+    # named rows (R18 x2, R19, R20, R24, G22) are counted exactly; the crate-wide scans (constructions, 2-bit primitives) must each
+    # match at least once per configuration
+    chk.floor("k-mer operation rows", nrows, 6 * len(chk.configs))
+    chk.floor("k-mer scans (constructions, 2-bit primitives)", ncons, 2 * len(chk.configs))
 
 
 EXEMPT = {
@@ -207,6 +213,7 @@ def canon_constructions(chk, cfg):
             continue
         n += 1
     # every public function that yields a Kmer built by packing: judge the packed extent
+    judged = 0
     for b in bio.bodies:
         if b["kind"] not in ("AssocFn", "Fn") or not b["vis"].startswith("Public"):
             continue
@@ -231,7 +238,9 @@ def canon_constructions(chk, cfg):
                 ok, why = extent_ok(p, x, b)
                 chk.ob("I-canon", b["path"], ok, "packs %s into a k-mer: %s" % (show(x)[:100], why), b["span"], kind="non-canonical",
                        sample={"ctor": b["path"], "packs": show(x)[:100]})
-    return n
+                judged += 1
+    # non-vacuity: construction sites seen, or - when every literal lives in a private helper - packed extents judged at its callers
+    return max(n, judged)
 
 
 def extent_ok(p, x, body=None):
